@@ -20,6 +20,13 @@ ISA['instructions'] = dict(ISA['instructions'])
 ISA['instructions']['lda'] = {'bytecode': {'value': 0xB, 'size': 4}, 'operands': {'count': 1, 'operand_sets': {'list': ['spx']}}}
 ISA['operand_sets']['idx'] = {'operand_values': {'ix': {'type': 'indexed_register', 'register': 'b', 'bytecode': {'value': 2, 'size': 4},
                                                         'index_operands': {'i': {'type': 'numeric', 'argument': {'size': 8, 'byte_align': True}}}}}}
+# one operand set with an offset form and a register-indexed form on the same base register: `[sp+a]` is the indexed form however
+# the register names are written
+ISA['operand_sets']['spxi'] = {'operand_values': {
+    'so': {'type': 'indirect_register', 'register': 'sp', 'bytecode': {'value': 4, 'size': 4}, 'offset': {'size': 8, 'byte_align': True}},
+    'si': {'type': 'indirect_indexed_register', 'register': 'sp', 'bytecode': {'value': 5, 'size': 4},
+           'index_operands': {'ia': {'type': 'register', 'register': 'a', 'bytecode': {'value': 1, 'size': 4}}}}}}
+ISA['instructions']['ldz'] = {'bytecode': {'value': 0xD, 'size': 4}, 'operands': {'count': 1, 'operand_sets': {'list': ['spxi']}}}
 ISA['instructions']['ldq'] = {'bytecode': {'value': 0xC, 'size': 4}, 'operands': {'count': 1, 'operand_sets': {'list': ['idx']}}}
 
 # statement = (label or None, head or None, [operands], is_instruction)
@@ -36,6 +43,8 @@ CATALOGUE = [
     (None, 'n12', ['A1'], True),
     (None, 'lda', [('ireg', 'sp', '2')], True),
     (None, 'ldq', [('xreg', 'b', '4')], True),
+    (None, 'ldz', [('iireg', 'sp', 'a')], True),
+    (None, 'ldz', [('ireg', 'sp', 'A1')], True),
     (None, '.byte', ['1', '2', 'A1'], False),
     (None, '.2byte', ['lab'], False),
     (None, '.fill', ['2', '1'], False),
@@ -81,13 +90,13 @@ def sites(prog, kind):
         if kind == 'mnemonic-case' and is_instr:
             out.append(i)
         elif kind == 'register-case':
-            out += [(i, k) for k, o in enumerate(ops) if isinstance(o, tuple) and o[0] in ('reg', 'ireg', 'xreg')]
+            out += [(i, k) for k, o in enumerate(ops) if isinstance(o, tuple) and o[0] in ('reg', 'ireg', 'xreg', 'iireg')]
         elif kind == 'separator' and head and ops:
             out.append(i)
         elif kind == 'comma' and head not in SPACE_JOINED:
             out += [(i, k) for k in range(1, len(ops))]
         elif kind == 'bracket-padding':
-            out += [(i, k) for k, o in enumerate(ops) if isinstance(o, tuple) and o[0] in ('ireg', 'ind', 'xreg')]
+            out += [(i, k) for k, o in enumerate(ops) if isinstance(o, tuple) and o[0] in ('ireg', 'ind', 'xreg', 'iireg')]
         elif kind in ('indent', 'blank-line', 'comment'):
             out.append(i)
         elif kind == 'label-own-line' and label and head:
@@ -117,6 +126,9 @@ def render(prog, choice):
                 elif o[0] == 'ireg':
                     r = o[1].upper() if up else o[1]
                     t = f'[{pad}{r}{pad}+{pad}{o[2]}{pad}]'
+                elif o[0] == 'iireg':
+                    r, x = (o[1].upper(), o[2].upper()) if up else (o[1], o[2])
+                    t = f'[{pad}{r}{pad}+{pad}{x}{pad}]'
                 elif o[0] == 'xreg':
                     r = o[1].upper() if up else o[1]
                     t = f'{r}{pad}+{pad}{o[2]}'
